@@ -454,7 +454,7 @@ def register(E):
     def sbytes(x):
         x = deref(x)
         if isinstance(x, Str): return x.b
-        if isinstance(x, Vec) and x.ty == 'String': return x.l
+        if isinstance(x, Vec) and x.ty in ('String', 'BString', 'Vec'): return x.l
         raise EngineError(f'not a string: {x!r}')
     def sref(b): return Ref([Str(b)], 0)
     def beq(e, x, y):
@@ -493,9 +493,9 @@ def register(E):
     def _(e, c, a): return ('disp', a[0])
     @R(r'^(std|core)::fmt::Arguments::new::<')
     def _(e, c, a): return ('fmtargs', sbytes(a[0]), deref(a[1]).f)
-    @R(r'^(std|alloc)::fmt::format$')
-    def _(e, c, a):
-        _, tpl, args = a[0]; out = []; i = 0; nxt = 0
+    def format_args(fa):
+        """decode the pinned nightly's fmt template byte-code: literal runs and `{}` of str/String/BString/integers"""
+        _, tpl, args = fa; out = []; i = 0; nxt = 0
         if not all(isinstance(x, int) for x in tpl): raise EngineError(f'fmt template not concrete: {tpl!r}')
         while True:
             t = tpl[i]; i += 1
@@ -503,11 +503,16 @@ def register(E):
             if t < 0x80: out.extend(tpl[i:i + t]); i += t
             elif t == 0xc0:
                 kind, v = args[nxt]; nxt += 1; v = deref(v)
+                while isinstance(v, Agg) and len(v.f) == 1 and v.ty not in ('arr', 'tup'): v = deref(v.f[0])
                 if isinstance(v, (Str, Vec)): out.extend(sbytes(v))
-                elif isinstance(v, int): out.extend(str(v).encode())
+                elif isinstance(v, SliceRef): out.extend(v.items())
+                elif isinstance(v, int) and not isinstance(v, bool): out.extend(str(v).encode())
                 else: raise EngineError(f'Display of {v!r}')
             else: raise EngineError(f'fmt template op {t:#x}')
-        return Vec(out, 'String')
+        return out
+    E.format_args = format_args
+    @R(r'^(std|alloc)::fmt::format$')
+    def _(e, c, a): return Vec(format_args(a[0]), 'String')
 
     # ------------------------------------------------ panics / fmt
     @R(r'^Arguments::|^core::fmt::rt::|^std::fmt::Arguments')
